@@ -39,8 +39,8 @@ ASSUMPTIONS = [
     "hereditary build: C09_defs_copied_deep assumes the subcommands on the path were not built before "
     "(Built flag clear), as for a freshly constructed Command",
     "whole-argv theorems (C09_chain, C09_chain_short_flags, C09_level_*, C09_chain_globals) quantify over the classes "
-    "line/gline of ParseProofs/Chain.v: option prefixes made of `--flag`, `--opt=v`, `--opt v` (exact long keys, one "
-    "value, no require_equals) and flag clusters `-abc`; no token or option value that the level reads as a subcommand; "
+    "line/gline of ParseProofs/Chain.v: option prefixes made of `--flag`, `--opt=v`, `--opt v`, `-ov`, `-o v` (exact "
+    "keys, one value, no require_equals, no hyphen-value positionals for the short forms) and flag clusters `-abc`; no token or option value that the level reads as a subcommand; "
     "selecting tokens = name/alias (infer_subcommands off), `--sub` (infer_long_args off), `-S` alone, or the first "
     "letter of a cluster in a level not itself entered through a cluster; selected children canonical (first with "
     "their name, name resolves to them); levels with ignore_errors and args_conflicts_with_subcommands off; an "
@@ -49,7 +49,7 @@ ASSUMPTIONS = [
 ]
 TECHNIQUE = ("Coq proof (closed form of ArgMatcher::fill_in_global_values for chains of any depth; "
              "_propagate_global_args/_build_subcommand copy global definitions to every depth; the token loop of "
-             "Parser::parse never touches the recorded subcommand; option prefixes (`--flag`, `--opt=v`, `--opt v`, `-abc`) "
+             "Parser::parse never touches the recorded subcommand; option prefixes (`--flag`, `--opt=v`, `--opt v`, `-ov`, `-o v`, `-abc`) "
              "are consumed item by item and the loop reaches the subcommand token in state ValuesDone; by induction on the "
              "nesting a successful parse of `pre_0 n_1 pre_1 ... n_k pre_k` reports exactly the canonical names selected "
              "(name, alias, long flag, short flag alone, first letter of a cluster; external subcommand last with its "
@@ -61,7 +61,7 @@ LEVEL_TEXT = ("Machine-checked theorems (Coq 8.16, closed under the global conte
               "find_subcommand} and ArgMatcher::{propagate_globals, fill_in_global_values}: see evidence/C09.json for the "
               "theorem list discharged on this run.  Whole-argv statements (C09_chain, C09_chain_short_flags, "
               "C09_level_isolation, C09_level_entries, C09_chain_globals) hold for trees and lines of any depth in the "
-              "inductively defined classes line/gline (option prefixes of long flags/options and flag clusters, levels "
+              "inductively defined classes line/gline (option prefixes of long/short flags and options and flag clusters, levels "
               "that do not ignore errors).  The model is tied to clap_builder by running the extracted model and the real "
               "crate (debug build) on the same generated command trees (depth <= 3) and argument vectors on every check; "
               "the direct oracle recomputes the expected chain and the explicit occurrences from the case line and "
@@ -70,7 +70,7 @@ LEVEL_TEXT = ("Machine-checked theorems (Coq 8.16, closed under the global conte
 LEVEL_NOTE = ("Trusted: Coq kernel, extraction, OCaml driver, Rust harness, generators, the python scan. Proved for all "
               "inputs of the classes line/gline (ParseProofs/Chain.v): reported chain = chain named on the command line, "
               "external arguments verbatim, level isolation (equation and entries), globals merged at every level with "
-              "explicit beating default. Outside the classes (positionals before a subcommand, short options with values, "
+              "explicit beating default. Outside the classes (positionals before a subcommand, `-o=v`, options inside clusters, "
               "multi-value / require_equals / hyphen-value options, inference, ignore_errors, args_conflicts_with_subcommands) "
               "the whole-argv statement is covered by the correspondence and the oracle. Recorded findings: `-vSy` "
               "(parent flags before a short flag-subcommand letter with further letters) and a stale flag_subcmd_at "
